@@ -9,7 +9,7 @@
    stated in full and refuted before, and are proved at full strength now (the old witnesses stay as
    regression Examples and in corpus/C13.json). *)
 From Coq Require Import String Permutation Sorting.Sorted.
-From PDV Require Import lib.Base lib.C12_Order gen.Gen_C13 model.C13_Rules proof.C13_RulesProof proof.C13_UpdateProof proof.C13_HistoryProof proof.C13_FrameProof model.C13_Paged proof.C13_PagedProof proof.C13_LockProof proof.C13_Skel.
+From PDV Require Import lib.Base lib.C12_Order gen.Gen_C13 model.C13_Rules proof.C13_RulesProof proof.C13_UpdateProof proof.C13_HistoryProof proof.C13_FrameProof proof.C13_RestartProof model.C13_Paged proof.C13_PagedProof proof.C13_LockProof proof.C13_Skel.
 Local Open Scope list_scope.
 
 (* ---------- Part 1: the key-range index ---------- *)
@@ -194,13 +194,43 @@ Proof. exact load_by_prefix_all_with_prefix. Qed.
 (* foreign writes below rules/ (environment labels OCorruptRule / OCorruptDrop): what a restart guarantees then.
    Proved for every history: Initialize is total in the model (garbage, invalid, duplicated and mis-keyed entries
    are branches of load_rules, not errors), the configuration it serves is canonical (reachable_canonical) and the
-   storage stays a pair of sorted maps (reachable_sorted).  Still to prove (stated, checked by the monitor
-   `C13:restart-leaves-storage-different-*` on every restart of every run, true only since fix f6216a3): after a
-   successful restart the stored rules are exactly the served ones, whatever was written below rules/ before. *)
-Definition C13_restart_repairs_storage_todo : Prop :=
+   storage stays a pair of sorted maps (reachable_sorted).  And (proof/C13_RestartProof.v; true only since fix
+   f6216a3; checked by the monitor `C13:restart-leaves-storage-different-*` on every restart of every run): after
+   a successful restart the stored rules are exactly the served ones, each under its own key, whatever was
+   written below rules/ before - garbage, rules adjustRule refuses, rules under a key that is not their own,
+   several records claiming one key.  Proof: an invariant of loadRules' scan over the processed prefix of the
+   storage (`scan_inv`: per key, what is served is the record moved there, or nothing if the key is marked for
+   deletion, or the record found in place), then the effect of the repairs key by key (`repaired_get`). *)
+Theorem C13_restart_repairs_storage :
   forall ops mr st' o m,
     step (run_state step init_state ops) (ORestart mr) = (st', o) -> o_res o = ROk -> st_live st' = Some m ->
+    map_vals strip_sval (s_rules (st_store st')) = map_vals sv (c_rules (m_conf m)).
+Proof. exact restart_repairs_storage_pf. Qed.
+
+(* `strip_sval` forgets the in-memory group pointer of a stored rule (Rule.group is `json:"-"`: it is not part
+   of a record; the model's foreign writes may carry one).  When no stored rule carries one - PD's own writes
+   never do - the equality is literal: *)
+Theorem C13_restart_repairs_storage_literal :
+  forall ops mr st' o m,
+    step (run_state step init_state ops) (ORestart mr) = (st', o) -> o_res o = ROk -> st_live st' = Some m ->
+    groupless (s_rules (st_store st')) ->
     s_rules (st_store st') = map_vals sv (c_rules (m_conf m)).
+Proof. exact restart_repairs_storage_literal_pf. Qed.
+
+(* regression: records under foreign keys, two records claiming one key, garbage, an invalid rule - after the
+   restart the storage holds exactly the served rules, each under its own key (was false before fix f6216a3:
+   the rewritten key was deleted again) *)
+Example C13_restart_repairs_example :
+  let r (g i : list N) (v : Z) := Rule g i 0 false [] [] Voter 1 v true None in
+  let st := run_state step init_state
+    [OCorruptRule ([97], [49])%N (SVRule (r [97]%N [50]%N 1%Z));        (* a/2 stored under a/1 *)
+     OCorruptRule ([97], [50])%N (SVRule (r [97]%N [50]%N 2%Z));        (* a/2 under its own key too *)
+     OCorruptRule ([97], [51])%N SVGarbage;
+     OCorruptRule ([98], [49])%N (SVRule (Rule [98]%N [49]%N 0%Z false [] [] Voter 0%Z 3%Z true None));  (* count 0 *)
+     ORestart 3] in
+  option_map (fun m => map (fun kr => r_ver (snd kr)) (c_rules (m_conf m))) (st_live st) = Some [1]%Z /\
+  map fst (s_rules (st_store st)) = [([97], [50])]%N.
+Proof. vm_compute. split; reflexivity. Qed.
 
 (* the store set (RuleManager's StoreSetInformer) is an input of client updates only (`UWithStores`): it can make
    adjustRule refuse a rule that matches no store, never change what an accepted update does; the load path
@@ -268,3 +298,7 @@ Print Assumptions C13_store_check_only_refuses.
 Print Assumptions C13_updates_are_one_locked_section.
 Print Assumptions C13_readers_are_one_locked_section.
 Print Assumptions C13_load_by_prefix_all_with_prefix.
+Print Assumptions C13_accepted_update_touches_only_what_it_names.
+Print Assumptions C13_restart_repairs_storage.
+Print Assumptions C13_restart_repairs_storage_literal.
+Print Assumptions C13_retried_initialize_is_a_fresh_start.
